@@ -16,6 +16,9 @@ import vlib
 
 B = {"MaxTerm": 4, "MaxLog": 4, "MaxInflight": 1, "MaxElections": 3, "MaxCmds": 1, "MaxCrash": 0}
 
+X2 = {"Node": "{n1, n2}", "InitVoters": "{n1, n2}", "MaxTerm": 4, "MaxLog": 4, "MaxInflight": 1, "MaxElections": 2, "MaxCmds": 1,
+      "MaxXfers": 1, "MaxXferTries": 2, "XferTargets": "{None}"}
+
 # guard -> list of (variant name, constants, invariants expected to break)
 ATTACKS = {
     "FixD1": [("a", dict(B, FixD1="FALSE", MaxInflight=0, MaxCmds=0), ["Inv_C01"]),
@@ -36,6 +39,10 @@ ATTACKS = {
     "G_FlushBeforeAck": [("a", dict(B, G_FlushBeforeAck="FALSE", MaxCrash=1, MaxElections=1), ["Inv_C06"])],
     "G_LeaderFlush": [("a", dict(B, G_LeaderFlush="FALSE", MaxCrash=1, MaxElections=1), ["Inv_C06"])],
     "G_StaleTermAppend": [("a", dict(B, G_StaleTermAppend="FALSE"), ["Inv_C01", "Inv_C02", "Inv_C04", "Inv_C05"])],
+    # leadership transfer (2 voters: the smallest cluster in which a transfer is possible)
+    "G_XferCaughtUp": [("a", dict(X2, G_XferCaughtUp="FALSE"), ["Inv_C16"])],
+    "G_XferBlocksEntries": [("a", dict(X2, G_XferBlocksEntries="FALSE", MaxCmds=2), ["Inv_C16"])],
+    "G_XferSuccessOnHigherTerm": [("a", dict(X2, G_XferSuccessOnHigherTerm="FALSE"), ["Inv_C16"])],
 }
 
 
